@@ -76,3 +76,48 @@ Example C14_frame_example :
   frame_read (frame_write f ++ [9]) = (RVal f, [9]) /\
   sheader_wf (mksheader SWebTransport (Some 16384)) = true.
 Proof. vm_compute. repeat split; congruence. Qed.
+
+(* ---------------- settings, datagrams, QPACK integers ---------------- *)
+From WT.Model Require Import Wire Qpack.
+From WT.Proofs Require Import WireP QpackP.
+
+(* SETTINGS: for EVERY order in which the map is iterated (any list l of
+   distinct, non-reserved ids), decoding the generated payload gives back
+   exactly the entries the receiver stores (all of them when the ids are known
+   or GREASE) *)
+Theorem C14_settings_roundtrip :
+  forall l, forallb pair_ok l = true -> sok_nodup [] l = true ->
+    settings_with_frame (settings_payload l) = Val (filter sok l).
+Proof. exact settings_roundtrip. Qed.
+
+Theorem C14_datagram_roundtrip :
+  forall q p, q <= qstream_max -> dgram_read (enc q ++ p) = Val (q, p).
+Proof. exact dgram_roundtrip. Qed.
+
+Theorem C14_datagram_capacity :
+  forall cap q p,
+    (dgram_write cap q p = None <-> (cap < dgram_write_size q p)%nat) /\
+    (forall w, dgram_write cap q p = Some w -> w = enc q ++ p /\ length w = dgram_write_size q p).
+Proof. exact dgram_write_spec. Qed.
+
+(* QPACK prefix integers, every prefix width 1..8, every flag pattern, every 64-bit value *)
+Theorem C14_qpack_integer_roundtrip :
+  forall n fl v tail, In n [1; 2; 3; 4; 5; 6; 7; 8] -> fl < 2 ^ (8 - n) -> v < two64 ->
+    dec_int n (enc_int n fl v ++ tail) = Val (fl, v, tail).
+Proof. exact dec_enc_int. Qed.
+
+(* static-table references produced by the encoder denote the field they replace *)
+Theorem C14_static_table_sound :
+  forall k v,
+    match lookup_index k v with
+    | LKeyValue i => lookup_field i = Some (k, v)
+    | LKeyOnly i => exists v', lookup_field i = Some (k, v')
+    | LNone => True
+    end.
+Proof. exact lookup_index_sound. Qed.
+
+Example C14_settings_example :
+  forallb pair_ok local_settings = true /\ sok_nodup [] local_settings = true /\
+  settings_with_frame (settings_payload local_settings) = Val local_settings /\
+  dec_int 6 (enc_int 6 3 98 ++ [1]) = Val (3, 98, [1]).
+Proof. vm_compute. repeat split; reflexivity. Qed.
